@@ -263,8 +263,12 @@ fn run_case(case: &str) -> String {
         }
         "Y" => run_y(&f),
         "K" | "R" => {
-            if (f[0] == "R") == overflow_checks_on() {
-                return "error wrong-build-mode".into();
+            if f[0] == "K" && !overflow_checks_on() {
+                return "notrun wrong-build-mode".into();
+            }
+            if f[0] == "R" && overflow_checks_on() {
+                // a replay hands R cases to the checked binary: pass them on to the unchecked build
+                return delegate_to_nochk(case);
             }
             let ncols = usize::from_str_radix(f[2], 16).unwrap();
             let wire = wire_from_string(f[3]);
@@ -324,6 +328,41 @@ fn run_case(case: &str) -> String {
         }
         _ => "error unknown-case".into(),
     }
+}
+
+/// the unchecked build of this runner lives in `<this target dir>-c03-nochk` (built by checks/c03.py)
+fn delegate_to_nochk(case: &str) -> String {
+    let exe = match std::env::current_exe() {
+        Ok(e) => e,
+        Err(_) => return "notrun no-current-exe".into(),
+    };
+    // <target>/debug/c03 -> <target>-c03-nochk/debug/c03
+    let target = match exe.parent().and_then(|d| d.parent()) {
+        Some(t) => t.to_path_buf(),
+        None => return "notrun no-target-dir".into(),
+    };
+    let mut name = target.file_name().map(|n| n.to_os_string()).unwrap_or_default();
+    name.push("-c03-nochk");
+    let other = target.with_file_name(name).join("debug").join("c03");
+    if !other.exists() {
+        return "notrun unchecked-build-missing".into();
+    }
+    let tag = format!("{}.{}", std::process::id(), std::time::SystemTime::now().duration_since(std::time::UNIX_EPOCH).map(|d| d.as_nanos()).unwrap_or(0));
+    let dir = std::env::temp_dir();
+    let (fin, fout) = (dir.join(format!("c03r.{}.in", tag)), dir.join(format!("c03r.{}.out", tag)));
+    let res = (|| {
+        std::fs::write(&fin, format!("{}\n", case)).ok()?;
+        let st = std::process::Command::new(&other).arg("--replay").arg(&fin).arg("--out").arg(&fout).status().ok()?;
+        if !st.success() {
+            return None;
+        }
+        let txt = std::fs::read_to_string(&fout).ok()?;
+        let line = txt.lines().next()?.to_string();
+        line.split_once(" | ").map(|x| x.1.to_string())
+    })();
+    let _ = std::fs::remove_file(&fin);
+    let _ = std::fs::remove_file(&fout);
+    res.unwrap_or_else(|| "notrun unchecked-build-failed".into())
 }
 
 /// is this binary built with overflow checks?
@@ -470,7 +509,7 @@ async fn run_e_group(cases: &[String]) -> Vec<String> {
     }
     let cluster = match MockCluster::start(spec).await {
         Ok(c) => c,
-        Err(e) => return cases.iter().map(|_| format!("error cluster-start {}", e).replace(' ', "_")).collect(),
+        Err(e) => return cases.iter().map(|_| format!("error cluster-start {}", e.to_string().replace(' ', "_"))).collect(),
     };
     let session = match scylla::client::session_builder::SessionBuilder::new()
         .known_node_addr(cluster.contact_point(0))
@@ -482,7 +521,7 @@ async fn run_e_group(cases: &[String]) -> Vec<String> {
         Ok(s) => s,
         Err(e) => {
             cluster.shutdown();
-            return cases.iter().map(|_| format!("error session {}", e).replace(' ', "_")).collect();
+            return cases.iter().map(|_| format!("error session {}", e.to_string().replace(' ', "_"))).collect();
         }
     };
     let mut out = Vec::new();
@@ -491,7 +530,7 @@ async fn run_e_group(cases: &[String]) -> Vec<String> {
         let text = format!("SELECT pk FROM {}.{} WHERE pk = ?", ks, t);
         cluster.on_prepare(&text, mk_table(t).prepared(ks, &["pk"], &["pk"]));
         let r = match session.prepare(text.as_str()).await {
-            Err(e) => format!("error prepare {}", e).replace(' ', "_"),
+            Err(e) => format!("error prepare {}", e.to_string().replace(' ', "_")),
             Ok(ps) => {
                 let part = match ps.get_partitioner_name() {
                     PartitionerName::Murmur3 => "m",
